@@ -12,6 +12,7 @@ import QbiceVerif.Lemmas.TinyLfuNoPanic
 import QbiceVerif.Lemmas.TinyLfuStep
 import QbiceVerif.Lemmas.TinyLfuLock
 import QbiceVerif.Lemmas.TinyLfuWitness
+import QbiceVerif.Lemmas.TinyLfuPollFix
 
 namespace QbiceVerif.C16
 open QbiceVerif.TinyLfu
@@ -194,6 +195,29 @@ theorem bounded_poll_slack32_refuted :
      | .ok c => decide (c.core.st.length = 57 ∧
           pinnedNow (Cfg.real 1 true true (fun k _ => k)) c.pins c.core.st = 2 ∧
           (capsOf 1).1 + (capsOf 1).2.2 = 2)
+     | .error _ => false) = true := by
+  decide +kernel
+
+/-! ### `Poll` with the proposed repair of finding F15 (`fixes/F15-poll-trim-scan.diff`, not applied) -/
+
+/-- If the Poll trim visits the whole pinned region (`Cfg.fixTrim`), then in every reachable state
+`resident ≤ window capacity + main capacity + currently pinned + MAINTENANCE_BATCH_SIZE + r`, where `r` is the
+number of releases since the last maintenance round (`Cache.rel`, a ghost field no operation reads): a polling
+cache cannot know about those before it polls again; everything older is reclaimed. -/
+theorem bounded_poll_repaired {cfg : Cfg σ} {sk : σ} {ops : List Op} {c : Cache σ}
+    (hpm : cfg.protectedCap < cfg.mainLimit) (hpoll : cfg.poll = true) (hfix : cfg.fixTrim = true)
+    (htok : ∀ k v, cfg.tok k v = k) (h : run cfg (Cache.init sk) ops = .ok c) :
+    c.core.st.length ≤ cfg.windowCap + cfg.mainLimit + pinnedNow cfg c.pins c.core.st + cfg.batch + c.rel.length := by
+  have hi := run_inv hpm h (init_inv cfg sk)
+  have hn := run_pinv htok hpm hpoll hfix h (by intro k hk; simp [Cache.init] at hk)
+  exact bound_poll_fixed htok hi hn
+
+/-- The adversary of `bounded_poll_slack32_refuted` against the repaired trim: 35 resident instead of 57
+(capacity 2, 2 pinned, the 33 entries released since the last round are still there, none older). -/
+theorem poll_adversary_repaired :
+    (match run { Cfg.real 1 true true (fun k _ => k) with fixTrim := true } (Cache.real 1) pollAdversary with
+     | .ok c => decide (c.core.st.length = 35 ∧ c.rel.length = 33 ∧
+          pinnedNow (Cfg.real 1 true true (fun k _ => k)) c.pins c.core.st = 2)
      | .error _ => false) = true := by
   decide +kernel
 
